@@ -292,6 +292,9 @@ def snap_checks(ctx):
         pls = [pool[a], pool[b]]
         snaps = [snap(p) for p in pls]
         kws = [{}, {"start": -1.0, "stop": 4.0, "num_steps": 11}, {"num_steps": 5}]
+        # only num_steps given: down- and up-sampling on the sources' own range, node counts that do / do not
+        # divide the source's (a strided shortcut is right only when the INTERVAL counts divide)
+        kws += [{"num_steps": k} for k in ((2, 3, 4, 6, 7, 8, 12, 13) if a == b or (a + b) % 3 == 0 else (2, 3))]
         if all(np.all(np.asarray(p.values)[:, [0, -1]] == 0) for p in pls):
             # explicit bounds of exactly 0 (falsy!) and a grid strictly inside the sources' range
             kws += [{"start": 0.0, "stop": 3.0, "num_steps": 7}, {"start": 0, "stop": 4.0}, {"start": -2.0, "stop": 0.0, "num_steps": 5}]
